@@ -475,6 +475,20 @@ func c18VeryLongAlphabet(c Cfg) []Op {
 	}
 }
 
+// padding inside a REWRITTEN file: the first live record of the merge output ends 1-7 bytes before a block end (its
+// length is chosen in absolute terms: the output is packed from offset 0), the next record starts the following block
+func c18PaddingAlphabet(c Cfg) []Op {
+	return []Op{
+		{K: "put", Key: "b", VC: "F", Arg: 32747}, // record of 32761 bytes
+		{K: "put", Key: "b", VC: "F", Arg: 32751}, // 32765
+		{K: "put", Key: "b", VC: "F", Arg: 32753}, // 32767
+		{K: "put", Key: "c", VC: "S"},
+		{K: "put", Key: "c", VC: "L"},
+		{K: "del", Key: "b", Dev: true},
+		{K: "restart", Dev: true},
+	}
+}
+
 func c18LongAlphabet(c Cfg) []Op {
 	return []Op{
 		{K: "put", Key: c18LongKeys[0], VC: "S"},
@@ -666,6 +680,7 @@ func init() {
 				{Name: fmt.Sprintf("d%db%d", d, b), Cfgs: cfgs, Keys: c18Keys, Alpha: c18Alphabet, Depth: d, Dev: b, Run: runC18},
 				{Name: "many-files-d4", Cfgs: []Cfg{manyFilesCfg()}, Keys: keysAB, Alpha: manyFilesAlphabet, Depth: 4, Dev: 4, Run: runC18},
 				{Name: "long-keys-d4", Cfgs: longCfgs, Keys: c18LongKeys, Alpha: c18LongAlphabet, Depth: 4, Dev: 2, Run: runC18},
+				{Name: "padding-d4", Cfgs: []Cfg{megCfg(1 << 20), megCfg(40000)}, Keys: []string{"b", "c"}, Alpha: c18PaddingAlphabet, Depth: 4, Dev: 2, Run: runC18},
 				{Name: "very-long-keys-d4", Cfgs: veryLongCfgs, Keys: c18VeryLongKeys, Alpha: c18VeryLongAlphabet, Depth: 4, Dev: 2, Run: runC18},
 			})
 		},
